@@ -49,7 +49,7 @@ def main(run):
         res = v.tlc(run.sc, "Concurrency", "Concurrency.cfg", timeout=1200, coverage=thorough)
         run.design(res, "Concurrency (lock protocol)")
     groups = ["rr", "addpath"] if not thorough else ["ebgp3", "mixed", "rr", "addpath"]
-    num = 6 if not thorough else 40
+    num = 6 if not thorough else 12
     for gi, g in enumerate(groups):
         for chaos in (False, True):
             grp = "%s-%s" % (g, "chaos" if chaos else "plain")
